@@ -13,7 +13,11 @@ import (
 
 // nativeReplay runs the harness natively (real build of /repo, harness files overlaid) with the
 // counterexample's inputs and harness-level choices.
-func nativeReplay(rf *ReplayFile) map[string]interface{} {
+func nativeReplay(rf *ReplayFile) map[string]interface{} { return nativeReplayOpt(rf, false) }
+
+// nativeReplayOpt: with strace=true the test binary runs under strace (-f -y) and the log of the
+// file system calls is returned under "strace_log" (environment differential, selfTest).
+func nativeReplayOpt(rf *ReplayFile, strace bool) map[string]interface{} {
 	res := map[string]interface{}{}
 	repro := true
 	for _, c := range rf.Cex.Chooses {
@@ -81,7 +85,13 @@ func nativeReplay(rf *ReplayFile) map[string]interface{} {
 	if rel == "" {
 		target = "."
 	}
-	cmd := exec.CommandContext(ctx, "go", "test", "-v", "-vet=off", "-count=1", "-overlay", opath, "-run", "^TestZZVerifReplay$", "-timeout", "120s", target)
+	args := []string{"test", "-v", "-vet=off", "-count=1", "-overlay", opath, "-run", "^TestZZVerifReplay$", "-timeout", "120s"}
+	slog := filepath.Join(tmp, "strace.log")
+	if strace {
+		args = append(args, "-exec", "strace -f -y -s 0 -o "+slog+" -e trace=pwrite64,pread64,fdatasync,fsync,ftruncate,flock,mmap")
+	}
+	args = append(args, target)
+	cmd := exec.CommandContext(ctx, "go", args...)
 	cmd.Dir = repoDir
 	cmd.Env = append(os.Environ(), "GOFLAGS=-mod=mod", "GOPROXY=off", "GOSUMDB=off", "GOTOOLCHAIN=local", "ZZ_REPLAY="+rpath)
 	out, err := cmd.CombinedOutput()
@@ -93,6 +103,12 @@ func nativeReplay(rf *ReplayFile) map[string]interface{} {
 	}
 	res["log_tail"] = tail
 	res["log_full"] = s
+	res["tmpdir"] = tmp
+	if strace {
+		if b, e := os.ReadFile(slog); e == nil {
+			res["strace_log"] = string(b)
+		}
+	}
 	switch {
 	case ctx.Err() != nil || strings.Contains(s, "test timed out") || strings.Contains(s, "panic: test timed out"):
 		res["status"] = "hang"
@@ -133,7 +149,20 @@ func selfTest(P *Program, fnName string, params map[string]int64) (ok bool, deta
 		return false, fmt.Sprintf("engine run of %s failed: %v %v", fnName, why, job.EngineErrors)
 	}
 	rf := &ReplayFile{Fn: fnName, Params: params, Cex: cx}
-	nat := nativeReplay(rf)
+	wantEnv := strings.HasSuffix(fnName, "SelfTestDB")
+	_, straceErr := exec.LookPath("strace")
+	var nat map[string]interface{}
+	straced := false
+	if wantEnv && straceErr == nil {
+		// one native run serves both the digest comparison and the environment differential
+		nat = nativeReplayOpt(rf, true)
+		if st, _ := nat["status"].(string); st == "passes" && strings.Contains(fmt.Sprint(nat["log_full"]), "ZZVERIF-DIGEST ") {
+			straced = true
+		}
+	}
+	if !straced {
+		nat = nativeReplay(rf)
+	}
 	if st, _ := nat["status"].(string); st != "passes" {
 		return false, fmt.Sprintf("native run of %s: %v\n%v", fnName, nat["status"], nat["log_tail"])
 	}
@@ -151,5 +180,167 @@ func selfTest(P *Program, fnName string, params map[string]int64) (ok bool, deta
 			return false, fmt.Sprintf("%s: digest %d differs: engine %s native %s", fnName, i, job.Digests[i], nd[i])
 		}
 	}
-	return true, fmt.Sprintf("%s: %d observations identical in engine and native run", fnName, len(nd))
+	envNote := ""
+	if wantEnv {
+		// environment differential: the vos event trace of the engine run against the system calls the
+		// real build issues on the real kernel for the same history (strace)
+		if straceErr != nil {
+			envNote = "; environment differential skipped: strace not installed"
+		} else if !straced {
+			envNote = "; environment differential unavailable here (the run under strace did not complete; plain native run used)"
+		} else {
+			nat2 := nat
+			sl, _ := nat2["strace_log"].(string)
+			tmpd, _ := nat2["tmpdir"].(string)
+			if st, _ := nat2["status"].(string); st != "passes" || sl == "" {
+				envNote = "; environment differential unavailable here (strace run: " + fmt.Sprint(nat2["status"]) + ")"
+			} else {
+				ne := parseStrace(sl, tmpd)
+				ee := vosIOTrace(job.Events)
+				if len(ne) == 0 {
+					envNote = "; environment differential unavailable here (empty strace log: ptrace not permitted?)"
+				} else {
+					if d := firstDiff(ee, ne); d != "no difference" {
+						// one retry: a split strace line this parser does not know would be a tool artefact
+						nat3 := nativeReplayOpt(rf, true)
+						sl3, _ := nat3["strace_log"].(string)
+						td3, _ := nat3["tmpdir"].(string)
+						ne = parseStrace(sl3, td3)
+						if d2 := firstDiff(ee, ne); d2 != "no difference" {
+							return false, fmt.Sprintf("%s: environment differential: vos issued %d I/O events, the real run %d system calls; %s (first attempt: %s)", fnName, len(ee), len(ne), d2, d)
+						}
+					}
+					envNote = fmt.Sprintf("; vos event trace identical to the strace log of the native run (%d I/O calls: pwrite/pread/fdatasync/fsync/ftruncate/flock/mmap with offsets and lengths)", len(ne))
+				}
+			}
+		}
+	}
+	return true, fmt.Sprintf("%s: %d observations identical in engine and native run%s", fnName, len(nd), envNote)
+}
+
+func firstDiff(a, b []string) string {
+	n := len(a)
+	if len(b) < n {
+		n = len(b)
+	}
+	for i := 0; i < n; i++ {
+		if a[i] != b[i] {
+			return fmt.Sprintf("first difference at %d: vos %q real %q", i, a[i], b[i])
+		}
+	}
+	if len(a) > n {
+		return fmt.Sprintf("vos has extra event %d: %q", n, a[n])
+	}
+	if len(b) > n {
+		return fmt.Sprintf("real run has extra call %d: %q", n, b[n])
+	}
+	return "no difference"
+}
+
+// vosIOTrace renders the vos events on data files in the normal form used for the comparison.
+func vosIOTrace(evs []Event) []string {
+	var out []string
+	for _, e := range evs {
+		base := filepath.Base(e.Path)
+		if !strings.HasPrefix(e.Res, "ok") && !strings.HasPrefix(e.Res, "n=") && !strings.HasPrefix(e.Res, "prot=") {
+			continue
+		}
+		switch e.Kind {
+		case "pwrite":
+			out = append(out, fmt.Sprintf("pwrite %s off=%d len=%d", base, e.Off, e.Len))
+		case "pread":
+			out = append(out, fmt.Sprintf("pread %s off=%d len=%d", base, e.Off, e.Len))
+		case "fdatasync", "fsync":
+			out = append(out, fmt.Sprintf("%s %s", e.Kind, base))
+		case "ftruncate":
+			out = append(out, fmt.Sprintf("ftruncate %s size=%d", base, e.Off))
+		case "flock":
+			out = append(out, fmt.Sprintf("flock %s how=%d", base, e.Off))
+		case "mmap":
+			out = append(out, fmt.Sprintf("mmap %s len=%d prot=%d", base, e.Len, e.Off))
+		}
+	}
+	return out
+}
+
+// parseStrace extracts the same normal form from an `strace -f -y` log, for files under dir.
+func parseStrace(log, dir string) []string {
+	var out []string
+	flockHow := map[string]int{"LOCK_SH": 1, "LOCK_EX": 2, "LOCK_NB": 4, "LOCK_UN": 8}
+	protBits := map[string]int{"PROT_READ": 1, "PROT_WRITE": 2, "PROT_EXEC": 4, "PROT_NONE": 0}
+	unfinished := map[string]string{}
+	for _, ln := range strings.Split(log, "\n") {
+		// "<pid> name(args) = ret"; calls interrupted by another thread's output are split into
+		// "<pid> name(args <unfinished ...>" and "<pid> <... name resumed>rest) = ret"
+		sp := strings.Index(ln, " ")
+		if sp < 0 {
+			continue
+		}
+		pid := ln[:sp]
+		rest := strings.TrimSpace(ln[sp:])
+		if u := strings.Index(rest, "<unfinished ...>"); u >= 0 {
+			unfinished[pid] = rest[:u]
+			continue
+		}
+		if strings.HasPrefix(rest, "<... ") {
+			if r := strings.Index(rest, "resumed>"); r >= 0 {
+				rest = unfinished[pid] + rest[r+len("resumed>"):]
+				delete(unfinished, pid)
+			}
+		}
+		par := strings.Index(rest, "(")
+		eq := strings.LastIndex(rest, " = ")
+		if par < 0 || eq < 0 {
+			continue
+		}
+		name := rest[:par]
+		args := rest[par+1 : eq]
+		ret := strings.TrimSpace(rest[eq+3:])
+		if strings.HasPrefix(ret, "-1") {
+			continue
+		}
+		i := strings.Index(args, "<"+dir+"/")
+		if i < 0 {
+			continue
+		}
+		k := strings.Index(args[i:], ">")
+		if k < 0 {
+			continue
+		}
+		base := filepath.Base(args[i+1 : i+k])
+		args = strings.TrimSuffix(strings.TrimSpace(args), ")")
+		fields := strings.Split(args, ", ")
+		last := func(n int) string {
+			if len(fields) >= n {
+				return strings.TrimSuffix(fields[len(fields)-n], ")")
+			}
+			return "?"
+		}
+		switch name {
+		case "pwrite64":
+			out = append(out, fmt.Sprintf("pwrite %s off=%s len=%s", base, last(1), last(2)))
+		case "pread64":
+			out = append(out, fmt.Sprintf("pread %s off=%s len=%s", base, last(1), last(2)))
+		case "fdatasync", "fsync":
+			out = append(out, fmt.Sprintf("%s %s", name, base))
+		case "ftruncate":
+			out = append(out, fmt.Sprintf("ftruncate %s size=%s", base, last(1)))
+		case "flock":
+			how := 0
+			for _, f := range strings.Split(last(1), "|") {
+				how |= flockHow[f]
+			}
+			out = append(out, fmt.Sprintf("flock %s how=%d", base, how))
+		case "mmap":
+			// mmap(NULL, len, prot, flags, fd<path>, off)
+			if len(fields) >= 6 {
+				prot := 0
+				for _, f := range strings.Split(fields[2], "|") {
+					prot |= protBits[f]
+				}
+				out = append(out, fmt.Sprintf("mmap %s len=%s prot=%d", base, fields[1], prot))
+			}
+		}
+	}
+	return out
 }
